@@ -64,6 +64,111 @@ fn harmless(cmd: u8, sid: u32, known: &[u32], is_client: bool, payload_is_valid_
     }
 }
 
+
+/// a host-name field: length byte + bytes, in every class the parsers distinguish
+fn gen_name_field(g: &mut Gen, v: &mut Vec<u8>) {
+    match g.range(0, 8) {
+        0 => v.push(0), // empty name
+        1 => {
+            // announces more than follows (the stream then goes quiet or carries junk)
+            v.push(*g.pick(&[1u8, 40, 255]));
+            v.extend(g.bytes((g.0 % 20) as usize));
+        }
+        2 => {
+            // not UTF-8
+            let l = g.range(1, 30) as usize;
+            v.push(l as u8);
+            v.extend(std::iter::repeat(0xffu8).take(l));
+        }
+        3 => {
+            let l = *g.pick(&[1usize, 63, 64, 254, 255]);
+            v.push(l as u8);
+            v.extend(std::iter::repeat(b'a').take(l));
+        }
+        4 => {
+            let n = b"nx.test"; // does not resolve
+            v.push(n.len() as u8);
+            v.extend_from_slice(n);
+        }
+        5 => {
+            let n = *g.pick(&[&b"1.2.3.4"[..], b"::1", b"[::1]", b"1.2.3.4:80", b"a b", b"a\0b", b".", b"-"]);
+            v.push(n.len() as u8);
+            v.extend_from_slice(n);
+        }
+        _ => {
+            let n = b"good.test"; // resolves
+            v.push(n.len() as u8);
+            v.extend_from_slice(n);
+        }
+    }
+}
+
+/// hostile content of a UDP-over-TCP stream: association request (isConnect | atyp | address | port), then records
+fn gen_uot_bytes(g: &mut Gen) -> Vec<u8> {
+    let mut v = Vec::new();
+    v.push(match g.range(0, 9) {
+        0 => 0,
+        1 => 2,
+        2 => (g.next() & 0xff) as u8,
+        _ => 1,
+    });
+    let atyp = *g.pick(&[1u8, 1, 3, 3, 3, 4, 4, 0, 2, 5, 0x7f, 0xff]);
+    v.push(atyp);
+    match atyp {
+        1 => v.extend(g.bytes(4)),
+        4 => v.extend(g.bytes(16)),
+        3 => gen_name_field(g, &mut v),
+        _ => v.extend(g.bytes((g.0 % 20) as usize)),
+    }
+    v.extend_from_slice(&(*g.pick(&[0u16, 1, 53, 65_535])).to_be_bytes());
+    if g.chance(15) {
+        let cut = (g.next() % (v.len() as u64 + 1)) as usize;
+        v.truncate(cut);
+        return v;
+    }
+    for _ in 0..g.range(0, 5) {
+        let announced = match g.range(0, 9) {
+            0 => 0u64,
+            1 => 1,
+            2 => 65_507,
+            3 => 65_508,
+            4 => 65_535,
+            5 => 1_472,
+            _ => g.range(1, 3_000),
+        };
+        let have = match g.range(0, 5) {
+            0 => announced / 2,
+            1 => 0,
+            2 => announced + 3,
+            _ => announced,
+        };
+        v.extend_from_slice(&(announced as u16).to_be_bytes());
+        v.extend(g.bytes(have as usize));
+    }
+    v
+}
+
+/// hostile destination header of an ordinary proxied stream (atyp | address | port), then whatever
+fn gen_dest_bytes(g: &mut Gen) -> Vec<u8> {
+    let mut v = Vec::new();
+    let atyp = *g.pick(&[1u8, 3, 3, 3, 4, 0, 2, 5, 6, 0x7f, 0x80, 0xff]);
+    v.push(atyp);
+    match atyp {
+        1 => v.extend(g.bytes(4)),
+        4 => v.extend(g.bytes(16)),
+        3 => gen_name_field(g, &mut v),
+        _ => v.extend(g.bytes((g.0 % 20) as usize)),
+    }
+    v.extend_from_slice(&(*g.pick(&[0u16, 1, 80, 65_535])).to_be_bytes());
+    if g.chance(25) {
+        let cut = (g.next() % (v.len() as u64 + 1)) as usize;
+        v.truncate(cut);
+    } else if g.chance(50) {
+        v.extend(g.bytes((g.0 % 400) as usize));
+    }
+    v
+}
+
 impl Check for C20 {
     fn id(&self) -> &'static str {
         "C20"
@@ -131,7 +236,7 @@ impl Check for C20 {
             json!({"net": net, "mode": "mutate", "flips": flips, "chunks": (0..g.range(1, 6)).map(|_| g.range(1, 700)).collect::<Vec<_>>(), "truncate": if g.chance(25) { json!(g.range(1, 1500)) } else { Value::Null }})
         } else {
             let net = calm_net(&mut g);
-            let target = *g.pick(&["socks5", "socks5", "http", "http", "udp", "server", "server"]);
+            let target = *g.pick(&["socks5", "socks5", "http", "http", "udp", "server", "server", "uot", "uot", "dest", "dest"]);
             let l = match g.range(0, 5) {
                 0 => 0,
                 1 => g.range(1, 8),
@@ -148,6 +253,13 @@ impl Check for C20 {
                 };
                 let n = std::cmp::min(prefix.len(), bytes.len());
                 bytes[..n].copy_from_slice(&prefix[..n]);
+            }
+            // grammar-aware hostile content: the parsers behind a stream (destination header, association request,
+            // datagram records) see every field class, not only what random bytes happen to form
+            if target == "uot" {
+                bytes = gen_uot_bytes(&mut g);
+            } else if target == "dest" {
+                bytes = gen_dest_bytes(&mut g);
             }
             json!({"net": net, "mode": "frontends", "target": target, "bytes": hexs(&bytes), "close": g.chance(60), "segments": g.range(1, 5),
                 // target "server": what the hostile peer does on the proxy server's own port before it goes silent
@@ -186,7 +298,7 @@ impl Check for C20 {
         out
     }
     fn rule(&self) -> &'static str {
-        "one case = (frames, 50%) 2-25 items fed to a real client or server Session: valid PSH traffic on two streams interleaved with well-formed frames of every command 0-10 and unknown commands x stream-id classes {0, known, unknown, 2^31, 2^32-1} x payloads {empty, random, hostile settings/scheme texts with sizes up to 2^63-1, 0xff x up to 65535, random up to 300}, random junk bytes, and headers that announce more than follows, ended by keep / EOF / reset, with a fault-free sibling pair in the same runtime; (mutate, 22%) two real Sessions exchanging valid traffic through pipes that flip 1-6 bits (anywhere, or aimed at a length or command field) or truncate; (frontends, 28%) 0-70000 random bytes (half of them starting like a valid request) written in 1-5 segments to the SOCKS5 listener, the HTTP listener, or as the content of a UDP-over-TCP stream, with a well-behaved sibling connection afterwards; panics are caught process-wide, aborts by the worker model, spins by the poll budget; every case is non-trivial; distinct = distinct (plan hash, poll-order fingerprint)"
+        "one case = (frames, 50%) 2-25 items fed to a real client or server Session: valid PSH traffic on two streams interleaved with well-formed frames of every command 0-10 and unknown commands x stream-id classes {0, known, unknown, 2^31, 2^32-1} x payloads {empty, random, hostile settings/scheme texts with sizes up to 2^63-1, 0xff x up to 65535, random up to 300}, random junk bytes, and headers that announce more than follows, ended by keep / EOF / reset, with a fault-free sibling pair in the same runtime; (mutate, 22%) two real Sessions exchanging valid traffic through pipes that flip 1-6 bits (anywhere, or aimed at a length or command field) or truncate; (frontends, 28%) 0-70000 random bytes (half of them starting like a valid request) written in 1-5 segments to the SOCKS5 listener, the HTTP listener, or as the content of a UDP-over-TCP stream, or grammar-aware hostile content (every class of isConnect / address type / name field {empty, announcing more than follows, not UTF-8, 255 bytes, unresolvable, literal-looking, resolvable} / truncation / datagram length {0, 1, 65507, 65508, 65535, more or less than announced}) as the association request + records of a UDP-over-TCP stream or as the destination header of an ordinary stream over a real client session (which must afterwards still serve a well-formed stream or be closed), or silent / junk / half-finished peers on the server's own port, with a well-behaved sibling connection afterwards; panics are caught process-wide, aborts by the worker model, spins by the poll budget; every case is non-trivial; distinct = distinct (plan hash, poll-order fingerprint)"
     }
     fn real_components(&self) -> Vec<&'static str> {
         vec!["Session::recv_loop / handle_frame (all arms), FrameCodec::decode, StringMap::from_bytes, PaddingFactory::new / update_default / generate_record_payload_sizes, write paths, close", "SOCKS5 and HTTP front-ends, Client, Server, TcpProxyHandler::read_socks_addr, udp_proxy::read_initial_request / read_udp_packet (frontends mode)"]
@@ -604,6 +716,77 @@ async fn run_frontends(plan: &Value) -> Outcome {
                     drop(st);
                 }
                 other => out.viol("harness", "udp-stream-setup", format!("{:?}", other.map(|r| r.map(|_| ()).map_err(|e| e.to_string())))),
+            }
+        }
+        "uot" | "dest" => {
+            set_dns("good.test", vec!["198.51.100.9".parse().unwrap()]);
+            // the bytes travel over a real client session: as the content of a UDP-over-TCP stream, or as the
+            // destination header (and what follows it) of an ordinary stream the harness opens by hand
+            let opened: Result<(Arc<Stream>, Arc<Session>), String> = if target == "uot" {
+                match timeout(Duration::from_secs(60), client.create_proxy_stream(("sp.v2.udp-over-tcp.arpa".to_string(), 0))).await {
+                    Ok(Ok(x)) => Ok(x),
+                    other => Err(format!("{:?}", other.map(|r| r.map(|_| ()).map_err(|e| e.to_string())))),
+                }
+            } else {
+                match client.create_stream().await {
+                    Ok(se) => match se.open_stream().await {
+                        Ok((st, _synack)) => {
+                            se.disable_buffering();
+                            Ok((st, se))
+                        }
+                        Err(e) => Err(e.to_string()),
+                    },
+                    Err(e) => Err(e.to_string()),
+                }
+            };
+            match opened {
+                Ok((st, se)) => {
+                    if bytes.is_empty() {
+                        let _ = se.write_data_frame(st.id(), Bytes::new()).await;
+                    }
+                    for c in bytes.chunks(seg) {
+                        let _ = se.write_data_frame(st.id(), Bytes::copy_from_slice(c)).await;
+                        sleep(Duration::from_millis(2)).await;
+                    }
+                    // longest documented wait that such content can start: name resolution (10 s) + connect (15 s)
+                    sleep(Duration::from_secs(30)).await;
+                    // the session that carried the hostile stream either still works or is closed
+                    anytls_simnet::world::probe(if se.is_closed() { "c20.carrying_session_closed_by_stream_content" } else { "c20.carrying_session_open_after_stream_content" });
+                    if !se.is_closed() {
+                        let ok = async {
+                            let (st2, synack) = se.open_stream().await.map_err(|e| format!("open: {}", e))?;
+                            se.write_data_frame(st2.id(), Bytes::from(socks_addr_bytes("192.0.2.79", 9))).await.map_err(|e| format!("destination: {}", e))?;
+                            match timeout(Duration::from_secs(35), synack).await {
+                                Ok(Ok(Ok(()))) => {}
+                                other => return Err(format!("no positive answer to a well-formed open: {:?}", other.map(|r| r.map(|x| x.map_err(|e| e.to_string())).map_err(|_| "dropped"))))
+                            }
+                            se.write_data_frame(st2.id(), Bytes::from_static(b"still-alive")).await.map_err(|e| format!("write: {}", e))?;
+                            let rd = st2.reader();
+                            let mut got = Vec::new();
+                            let mut b = [0u8; 64];
+                            let dl = tokio::time::Instant::now() + Duration::from_secs(20);
+                            while got.len() < 11 {
+                                let mut r = rd.lock().await;
+                                match tokio::time::timeout_at(dl, r.read(&mut b)).await {
+                                    Ok(Ok(n)) if n > 0 => got.extend_from_slice(&b[..n]),
+                                    other => return Err(format!("echo on the same session: {:?} after {:?}", other.map(|r| r.map_err(|e| e.to_string())), String::from_utf8_lossy(&got))),
+                                }
+                            }
+                            if got == b"still-alive" { Ok(()) } else { Err(format!("echo differs: {:?}", String::from_utf8_lossy(&got))) }
+                        }
+                        .await;
+                        if ok.is_ok() {
+                            anytls_simnet::world::probe("c20.carrying_session_served_a_later_stream");
+                        }
+                        if let Err(e) = ok {
+                            if !se.is_closed() {
+                                out.viol("session-wedged", format!("same-session-unusable-but-open:{}", target), format!("after hostile stream content the carrying session is neither closed nor able to serve a well-formed stream: {}", e));
+                            }
+                        }
+                    }
+                    drop(st);
+                }
+                Err(e) => out.viol("harness", format!("{}-stream-setup", target), e),
             }
         }
         t => {
